@@ -55,10 +55,68 @@ theorem C34_unset_is_refresh (now0 refresh : Nat) (expiry : Option Nat) :
   unfold refreshWait nextUpdateStart
   cases expiry <;> simp <;> (try split) <;> omega
 
+/-- The run after the wait starts exactly at the later of the scheduled `next_update_start`
+and `now + min-refresh` (refresh when unset): never before the scheduled time, never later
+than both. -/
+theorem C34_next_start (next now refresh : Nat) (minRefresh : Option Nat) :
+    now + refreshWait next now refresh minRefresh = max next (now + minRefresh.getD refresh) := by
+  unfold refreshWait
+  cases minRefresh <;> simp <;> omega
+
+/-- Over every sequence of successful regular runs (any durations, any delay between
+`mark_update_done` and `refresh_wait`, any expiry per run), every wait the server loop
+obtains lies between min-refresh (refresh when unset) and the larger of the two. -/
+theorem C34_schedule_bounds (refresh : Nat) (minRefresh : Option Nat) (runs : List SchedRun)
+    (t : Nat) :
+    ∀ w ∈ schedWaits refresh minRefresh t runs,
+      minRefresh.getD refresh ≤ w ∧ w ≤ max refresh (minRefresh.getD refresh) := by
+  induction runs generalizing t with
+  | nil => intro w hw; simp [schedWaits] at hw
+  | cons x xs ih =>
+    intro w hw
+    simp only [schedWaits, List.mem_cons] at hw
+    rcases hw with rfl | hw
+    · exact ⟨C34_lower _ _ _ _,
+        C34_upper (t + x.dur) (t + x.dur + x.lag) refresh minRefresh x.expiry (by omega)⟩
+    · exact ih _ w hw
+
+/-- One wait per run. -/
+theorem C34_schedule_length (refresh : Nat) (minRefresh : Option Nat) (runs : List SchedRun)
+    (t : Nat) : (schedWaits refresh minRefresh t runs).length = runs.length := by
+  induction runs generalizing t with
+  | nil => rfl
+  | cons x xs ih => simp [schedWaits, ih]
+
+/-- Consecutive run starts of every such sequence are at least min-refresh (refresh when
+unset) apart: the schedule can never be driven into back-to-back runs by expiry times. -/
+theorem C34_schedule_spacing (refresh : Nat) (minRefresh : Option Nat) (runs : List SchedRun)
+    (t : Nat) :
+    ∀ i, (h : i + 1 < (schedStarts refresh minRefresh t runs).length) →
+      (schedStarts refresh minRefresh t runs)[i] + minRefresh.getD refresh
+        ≤ (schedStarts refresh minRefresh t runs)[i + 1] := by
+  induction runs generalizing t with
+  | nil => intro i h; simp [schedStarts] at h
+  | cons x xs ih =>
+    intro i h
+    have hl := C34_lower (nextUpdateStart (t + x.dur) refresh x.expiry) (t + x.dur + x.lag)
+      refresh minRefresh
+    cases i with
+    | zero =>
+      cases xs with
+      | nil => simp only [schedStarts, List.getElem_cons_zero, List.getElem_cons_succ]; omega
+      | cons y ys =>
+        simp only [schedStarts, List.getElem_cons_zero, List.getElem_cons_succ]; omega
+    | succ j =>
+      simp only [schedStarts, List.getElem_cons_succ]
+      exact ih _ j (by simpa [schedStarts] using h)
+
 /-! Non-vacuity: refresh 600 s, min-refresh 60 s, run finished at t = 1000 s. -/
 example : refreshWait (nextUpdateStart 1000 600 (some 1200)) 1000 600 (some 60) = 200 := by decide
 example : refreshWait (nextUpdateStart 1000 600 (some 1010)) 1000 600 (some 60) = 60 := by decide
 example : refreshWait (nextUpdateStart 1000 600 (some 2000)) 1003 600 (some 60) = 597 := by decide
 example : refreshWait (nextUpdateStart 1000 600 (some 1200)) 1000 600 none = 600 := by decide
+example : schedWaits 600 (some 60) 0 [⟨100, 0, some 300⟩, ⟨50, 2, none⟩, ⟨10, 0, some 0⟩] = [200, 598, 60] := by
+  decide
+example : schedStarts 600 (some 60) 0 [⟨100, 0, some 300⟩, ⟨50, 2, none⟩] = [0, 300, 950] := by decide
 
 end RoutinatorModel
